@@ -152,6 +152,27 @@ func TestC17(t *testing.T) {
 		}
 		return
 	}
+	// corpus: minimised regression inputs of repaired defects always run first
+	corpus := []struct {
+		n   uint64
+		seq []uint64
+	}{
+		{1, []uint64{5, 6, 7}},             // C17-F1: window size 1, second sample used to panic
+		{2, []uint64{1 << 63, 1 << 63, 4}}, // C17-F2: uint64 sum used to wrap to 0
+		{3, []uint64{^uint64(0), ^uint64(0), ^uint64(0), 1}},
+	}
+	for _, c := range corpus {
+		c := c
+		if only < 0 || only == ci {
+			runCase(ci, c.n, 40, []bool{true}, func(emit func(int, ...uint64)) {
+				for i, v := range c.seq {
+					emit(0, 0, uint64(20*(i+1)), v)
+				}
+			})
+		}
+		ci++
+	}
+	ncases += len(corpus)
 	for ; ci < ncases; ci++ {
 		// draw all parameters first so that VERIF_CASE replays exactly
 		n := r.pickU(1, 2, 2, 3, 3, 4, 5, 6, 2, 3)
